@@ -10,7 +10,7 @@ from . import C02
 
 META = {
     'design_ref': 'DESIGN.md §5 C12',
-    'technique': 'guard rule for optional table entries on the CFG and in comprehensions; writer template of _multivalued.get_as_string extracted by abstract interpretation and pushed, as the value of the dump template, through the Deb822 reader line classes; token-boundary inclusion for split(); width kinds from path enumeration; frame rule (no hidden state in the width computation); heap interpretation of the size_field_behavior property on several objects (default, read-back, per-object isolation); container-kind agreement of writer and reader on regular languages (record list vs. single record, the empty list included); type-guard rule for the text operations of the constructor; may-raise rule for max() of a possibly empty sequence; sibling cross-check of the single-record guard; _fixed_field_lengths interpreted per class and behaviour on paragraphs with an absent, list, single-record, empty and two-field content',
+    'technique': 'guard rule for optional table entries on the CFG and in comprehensions; writer template of _multivalued.get_as_string extracted by abstract interpretation and pushed, as the value of the dump template, through the Deb822 reader line classes; token-boundary inclusion for split(); width kinds from path enumeration; frame rule (no hidden state in the width computation); heap interpretation of the size_field_behavior property on several objects (default, read-back, per-object isolation); container-kind agreement of writer and reader on regular languages (record list vs. single record, the empty list included); type-guard rule for the text operations of the constructor; may-raise rule for max() of a possibly empty sequence; sibling cross-check of the single-record guard; _fixed_field_lengths interpreted per class and behaviour on paragraphs with an absent, list, single-record, empty and two-field content; predicates on the first line of a text; clause two non-blank lines are a list of records',
     'level_text': 'Static decision: absent optional structured fields can never raise from the size-column computation and never stop '
                   'the computation for the remaining fields; every line written for a record list is a continuation line the reader '
                   'keeps verbatim, ends the field correctly and splits on whitespace into exactly the written tokens; reader and writer '
@@ -421,6 +421,30 @@ def _follow_pred_lang(mod, test, var, alpha, depth=0):
     import re as _re
     if depth > 4:
         raise AnalysisError('predicate helpers nested too deeply: %s' % norm(test)[:60])
+    # a test on the FIRST LINE of the text (`var.split('\n', 1)[0]`, `var.partition('\n')[0]`): the language of the first lines for
+    # which it holds, followed by anything from the first newline on
+    def is_first_line(e):
+        return isinstance(e, ast.Subscript) and isinstance(e.slice, ast.Constant) and e.slice.value == 0 and isinstance(e.value, ast.Call) \
+            and isinstance(e.value.func, ast.Attribute) and norm(e.value.func.value) == var and not e.value.keywords and (
+                (e.value.func.attr == 'split' and len(e.value.args) == 2 and all(isinstance(a_, ast.Constant) for a_ in e.value.args)
+                 and e.value.args[0].value == '\n' and e.value.args[1].value == 1)
+                or (e.value.func.attr == 'partition' and len(e.value.args) == 1 and isinstance(e.value.args[0], ast.Constant) and e.value.args[0].value == '\n'))
+    firsts = [e for e in ast.walk(test) if is_first_line(e)]
+    if firsts:
+        from ..core import clone as _clone
+
+        class FL(ast.NodeTransformer):
+            def visit_Subscript(self, n):
+                if is_first_line(n):
+                    return ast.copy_location(ast.Name(id='first_line__', ctx=ast.Load()), n)
+                return self.generic_visit(n)
+        t2 = ast.fix_missing_locations(FL().visit(_clone(test)))
+        if any(isinstance(n_, (ast.Name, ast.Subscript, ast.Attribute)) and norm(n_) == var for n_ in ast.walk(t2)):
+            raise AnalysisError('a test on the first line and on the whole text at once: %s' % norm(test)[:60])
+        pl0 = _follow_pred_lang(mod, t2, 'first_line__', alpha, depth + 1)
+        no_nl = rx.regex_lang('[^\n]*', 0, 'fullmatch', alpha=alpha)
+        rest = rx.regex_lang('(?s:(?:\n.*)?)', 0, 'fullmatch', alpha=alpha)
+        return rx.concat(pl0.intersect(no_nl), rest)
 
     def atom(t):
         if isinstance(t, ast.Call) and isinstance(t.func, ast.Attribute) and len(t.args) == 1 and not t.keywords and norm(t.args[0]) == var \
@@ -465,13 +489,27 @@ def r5_container_kind(rep, src, M):
         is_list = isinstance(val, (ast.List, ast.ListComp)) or (isinstance(val, ast.Call) and norm(val.func) == 'list')
         lang = anyl
         not_text = False
+        # `self.get(k)` is `self[k]` on a path that has established that it is text (an absent field is None there)
+        text_gets = {norm(t_.args[0]) for t_, pol in p_.conds if pol and isinstance(t_, ast.Call) and norm(t_.func) == 'isinstance' and len(t_.args) == 2
+                     and norm(t_.args[1]) in ('str', '(str,)', 'Text') and isinstance(t_.args[0], ast.Call) and isinstance(t_.args[0].func, ast.Attribute)
+                     and t_.args[0].func.attr == 'get' and len(t_.args[0].args) == 1 and not t_.args[0].keywords}
+
+        class GetAsIndex(ast.NodeTransformer):
+            def visit_Call(self, c):
+                self.generic_visit(c)
+                if norm(c) in text_gets:
+                    return ast.copy_location(ast.Subscript(value=c.func.value, slice=c.args[0], ctx=ast.Load()), c)
+                return c
         for t_, pol in p_.conds:
             if "__raised__" in norm(t_):
                 continue
+            if text_gets:
+                from ..core import clone as _clone
+                t_ = ast.fix_missing_locations(GetAsIndex().visit(_clone(t_)))
             if isinstance(t_, ast.Call) and norm(t_.func) == 'isinstance' and len(t_.args) == 2 and norm(t_.args[1]) in ('str', '(str,)', 'Text'):
                 not_text = not_text or not pol      # the value is text on this path / this path is for values that are not text
                 continue
-            names = {norm(n_) for n_ in ast.walk(t_) if isinstance(n_, ast.Subscript)}
+            names = {norm(n_) for n_ in ast.walk(t_) if isinstance(n_, ast.Subscript) and norm(n_.value) == 'self'}      # self[<field>]
             var = next(iter(names)) if len(names) == 1 else None
             if var is None:
                 raise AnalysisError('%s: condition %s is not a predicate on the field text' % (init.site, norm(t_)[:60]))
@@ -501,6 +539,16 @@ def r5_container_kind(rep, src, M):
                 ' (an empty list becomes an empty record, which cannot be dumped again)' if not single and w == '' else ''), detail={'witness': w}, where=init.where)
     if n < 2:
         raise AnalysisError('fewer than two writer forms analysed')
+    # parsing exposes EACH LINE as a record, however the lines are laid out: a text with two lines that hold something is a list of
+    # records also when the first record stands on the line of the field name ("Files: <sum> <size> <name>\n <sum> ...")
+    two = rx.regex_lang(r'(?s:.*\S.*\n.*\S.*)', 0, 'fullmatch', alpha=alpha).intersect(M.domain('\n'))
+    w2 = two.minus(list_lang).witness()
+    what2 = 'a text with two non-blank lines is read as a list of records'
+    if w2 is None:
+        rep.ok('C12.R5', init.site, what2, 'every such text takes the list branch')
+    else:
+        rep.fail('C12.R5', init.site, what2, 'the text %r (two lines, each a record) takes the single-record branch: its lines are merged into ONE record, only the last line\'s '
+                 'values survive' % w2, detail={'witness': w2}, where=init.where)
     # a paragraph can also be built from a mapping (Deb822(mapping)): a structured field then already holds records, and the text
     # operations of the conversion must not be applied to it -- every use of the field value as text is dominated by a test that it
     # is text
@@ -509,7 +557,8 @@ def r5_container_kind(rep, src, M):
     g = cfg.CFG(fnode)
     loop0 = loop
     binds = [st for st in ast.walk(loop0) if isinstance(st, ast.Assign) and len(st.targets) == 1 and isinstance(st.targets[0], ast.Name)
-             and isinstance(st.value, ast.Subscript) and norm(st.value.value) == 'self']
+             and ((isinstance(st.value, ast.Subscript) and norm(st.value.value) == 'self')
+                  or (isinstance(st.value, ast.Call) and norm(st.value.func) == 'self.get' and len(st.value.args) == 1 and not st.value.keywords))]
     if len(binds) != 1:
         raise AnalysisError('%s: the field value is not bound to one local' % init.site)
     cv = binds[0].targets[0].id
@@ -983,7 +1032,7 @@ def r4_size_column(rep, src):
             ks = [k for _, k, _, _c in results]
             if ks == ['MAXLEN']:
                 rep.ok('C12.R4', f.site, 'width = longest size', 'max(len(str(item[size])))')
-            else:
+            elif ks and all(k in ('MAXSIZE', 'MAXSIZESTR', 'LEN-OF-MAX-SIZE', 'MIN', 'LEN', 'SIZE', 'SIZESTR') or (isinstance(k, tuple) and k[:1] == ('CONST',)) for k in ks):
                 rep.fail('C12.R4', f.site, 'width = longest size', 'the size column width is computed as %s instead of the maximum of the lengths of the '
                          'sizes (a lexicographic or numeric maximum of the sizes gives a too narrow column)' % ks, where=f.where)
         else:
@@ -1020,14 +1069,20 @@ def r4_size_column(rep, src):
                     got[md] = ks_.pop()
                 elif ks_:
                     got[md] = sorted(map(repr, ks_))
-            if got.get('apt-ftparchive') == ('CONST', 16):
+            # a verdict from the shape of the returned expression only where that shape is in the vocabulary of kind_of; any other way
+            # of writing it (a dispatch table of helpers, map / itemgetter ...) is decided by the interpreted scenarios below
+            # (_width_scenarios: the widths registered for sizes 9 / 10000 / 123 under every behaviour)
+            known_wrong = ('MAXSIZE', 'MAXSIZESTR', 'LEN-OF-MAX-SIZE', 'MIN', 'LEN', 'SIZE', 'SIZESTR')
+            g_ = got.get('apt-ftparchive')
+            if g_ == ('CONST', 16):
                 rep.ok('C12.R4', f.site, 'apt-ftparchive width', '16')
-            else:
-                rep.fail('C12.R4', f.site, 'apt-ftparchive width', 'width for apt-ftparchive is %r, documented 16' % (got.get('apt-ftparchive'),), where=f.where)
-            if got.get('dak') == 'MAXLEN':
+            elif (isinstance(g_, tuple) and g_[:1] == ('CONST',)) or g_ in known_wrong or g_ == 'MAXLEN':
+                rep.fail('C12.R4', f.site, 'apt-ftparchive width', 'width for apt-ftparchive is %r, documented 16' % (g_,), where=f.where)
+            g_ = got.get('dak')
+            if g_ == 'MAXLEN':
                 rep.ok('C12.R4', f.site, 'dak width', 'max(len(str(item[size])))')
-            else:
-                rep.fail('C12.R4', f.site, 'dak width', 'width for dak is computed as %r instead of the longest size present' % (got.get('dak'),), where=f.where)
+            elif (isinstance(g_, tuple) and g_[:1] == ('CONST',)) or g_ in known_wrong:
+                rep.fail('C12.R4', f.site, 'dak width', 'width for dak is computed as %r instead of the longest size present' % (g_,), where=f.where)
         # the width of an empty record list, and of a field that holds a single record
         fin, _i = normalize.inline_helpers(f)
         bare_max = [c for c in ast.walk(fin) if isinstance(c, ast.Call) and norm(c.func) in ('max', 'min') and len(c.args) == 1 and not any(k.arg == 'default' for k in c.keywords)]
